@@ -223,6 +223,17 @@ fn jobs(tier: Tier) -> Vec<Job> {
 	for fmt in [Fmt::Versatiles, Fmt::Pmtiles] {
 		v.push(Job { fmt, comp: 1, name: "dense 12x12 across 4 blocks at z=9".into(), tiles: dense.clone() });
 	}
+	// strips with one tile per 256x256 block: many blocks, so that anything the writers do "every n blocks" happens
+	for (n, z) in tier.pick(vec![(70u32, 15u8)], vec![(70, 15), (300, 17), (1100, 19)]) {
+		let mut strip = TileMap::new();
+		for i in 0..n {
+			strip.insert((z, 256 * i + (i % 7), 5 + (i % 3)), format!("strip tile {i:05}").into_bytes());
+		}
+		strip.insert((0, 0, 0), b"root".to_vec());
+		for fmt in [Fmt::Versatiles, Fmt::Pmtiles] {
+			v.push(Job { fmt, comp: 0, name: format!("strip of {n} blocks at z={z}"), tiles: strip.clone() });
+		}
+	}
 	if tier == Tier::Thorough {
 		let big = tilesets::family_dense(8, 60, 60, 130, 130, 12);
 		v.push(Job { fmt: Fmt::Pmtiles, comp: 0, name: "dense 130x130 at z=8 (leaf directories)".into(), tiles: big });
@@ -236,6 +247,7 @@ pub fn run(ctx: Arc<Ctx>) {
 		 (all cuts for writes <= 4 KiB and both header writes; first/middle/last and every 8 KiB boundary for larger writes), image = zero-filled sparse file; \
 		 opened with the real reader; non-trivial = distinct crash images that still carry the format's magic bytes",
 	);
+	ctx.rule("rewrite dimension: the same histories replayed through the real DataWriterFile::from_path onto a destination holding a previous generation (complete container of the same format with other payloads / 96 KiB of 0xAA), every prefix of complete operations; allowed: previous generation byte-identical, open fails, or every tile of the new source intact");
 	ctx.assume("crash model = prefixes and byte cuts of the writer's operation sequence on a file whose unwritten bytes read as zero; reordering of unsynced blocks by the OS is outside the property's quantifier");
 	let rt = Arc::new(crate::memsource::runtime(2));
 	let js = jobs(ctx.tier);
@@ -319,6 +331,11 @@ pub fn run(ctx: Arc<Ctx>) {
 				}
 			}
 		}
+		// the same history replayed through the real DataWriterFile::from_path onto a destination that
+		// already holds a previous generation (a complete container of the same format / a longer file of 0xAA)
+		if j.tiles.len() <= 200 {
+			rewrite_over_existing(ctxr, &rt, j, ji, &log, &probes);
+		}
 		ctxr.state(total_ops as u64 + 1);
 		ctxr.transition(total_ops as u64);
 		if ji < 3 || j.name.starts_with("dense") {
@@ -330,6 +347,96 @@ pub fn run(ctx: Arc<Ctx>) {
 	ctx.exhaustive(true);
 	let _ = rt;
 	let _ = codec::gzip;
+}
+
+fn replay_ops(path: &std::path::Path, ops: &[WOp]) -> Result<(), String> {
+	let mut w = DataWriterFile::from_path(path).map_err(|e| format!("{e:#}"))?;
+	for op in ops {
+		match op {
+			WOp::Write { pos, data } => {
+				let p = w.get_position().map_err(|e| format!("{e:#}"))?;
+				if p != *pos {
+					return Err(format!("position {p} where the recorded history has {pos}"));
+				}
+				w.append(&Blob::from(data.as_slice())).map_err(|e| format!("{e:#}"))?;
+			}
+			WOp::WriteStart { data } => w.write_start(&Blob::from(data.as_slice())).map_err(|e| format!("{e:#}"))?,
+			WOp::SetPos(p) => w.set_position(*p).map_err(|e| format!("{e:#}"))?,
+		}
+	}
+	Ok(())
+}
+
+/// Previous generation at the destination: (a) a complete container of the same format holding
+/// other tiles at overlapping coordinates, (b) 96 KiB of 0xAA. For every prefix of complete
+/// operations of the new write (through the real DataWriterFile::from_path) the file must be the
+/// untouched previous generation, fail to open, or return every tile of the new source.
+fn rewrite_over_existing(ctx: &Ctx, rt: &tokio::runtime::Runtime, j: &Job, ji: usize, log: &[WOp], probes: &[Key]) {
+	let dir = crate::ctx::verif_root().join(".work").join(format!("c12r-{}-{ji}", std::process::id()));
+	let _ = std::fs::create_dir_all(&dir);
+	let mut prev_tiles = TileMap::new();
+	for (i, (k, v)) in j.tiles.iter().enumerate() {
+		let mut d = b"previous generation ".to_vec();
+		d.extend_from_slice(v);
+		d.extend(std::iter::repeat(b'p').take(i % 5));
+		prev_tiles.insert(*k, d);
+	}
+	prev_tiles.insert((3, 1, 6), b"only in the previous generation".to_vec());
+	let prev_a = match record(rt, j.fmt, &prev_tiles, j.comp) {
+		Ok(l) => materialize(&l, l.len(), 0),
+		Err(_) => return,
+	};
+	let prevs: Vec<(&str, Vec<u8>)> = vec![("a complete container of the same format", prev_a), ("96 KiB of 0xAA", vec![0xAA; 96 * 1024])];
+	let fmtname = if j.fmt == Fmt::Versatiles { "versatiles" } else { "pmtiles" };
+	let last_write = log.iter().rposition(|o| matches!(o, WOp::WriteStart { .. }));
+	for (pi, (pname, prev)) in prevs.iter().enumerate() {
+		let mut same_as_model = 0u64;
+		for k in 0..=log.len() {
+			let path = dir.join(format!("g{pi}.bin"));
+			std::fs::write(&path, prev).unwrap();
+			if let Err(e) = replay_ops(&path, &log[..k]) {
+				eprintln!("MACHINERY: replay of the recorded history through DataWriterFile failed: {e}");
+				std::process::exit(2);
+			}
+			let bytes = std::fs::read(&path).unwrap_or_default();
+			ctx.eval();
+			ctx.trace(1);
+			if bytes == *prev {
+				ctx.outcome(&format!("{fmtname} over {pname}: previous generation untouched"));
+				continue;
+			}
+			if bytes == materialize(log, k, 0) {
+				same_as_model += 1;
+			}
+			ctx.nontrivial(fnv(&bytes) ^ (ji as u64 * 31 + pi as u64).wrapping_mul(0x9e3779b97f4a7c15));
+			let v = judge(rt, j.fmt, bytes, &j.tiles, probes);
+			let complete = k == log.len();
+			match &v {
+				Verdict::OpenFails => ctx.outcome(&format!("{fmtname} over {pname}: open fails")),
+				Verdict::OpenPanics(p) => ctx.outcome(&format!("{fmtname} over {pname}: open/lookup panics (C19's domain) at {}", crate::par::panic_site(p))),
+				Verdict::Intact | Verdict::IntactButFormatDiffers => ctx.outcome(&format!("{fmtname} over {pname}: opens, every tile intact")),
+				Verdict::Wrong(why) => {
+					let site = if complete {
+						"complete file"
+					} else if last_write.is_some_and(|l| k > l) {
+						"after the final header write"
+					} else {
+						"before the final header write"
+					};
+					ctx.violation(
+						&format!("{fmtname}: interrupted rewrite over an existing file opens but lacks or misreports tiles ({site})"),
+						&format!("{fmtname} comp={} [{}] written through DataWriterFile::from_path over {pname}: after {k} of {} operations: {why}", j.comp, j.name, log.len()),
+						json!({"format": fmtname, "compression": j.comp, "tiles": j.tiles.iter().map(|(k, v)| json!([k.0, k.1, k.2, codec_hex(v)])).collect::<Vec<_>>(), "ops_complete": k, "over": pi}),
+					);
+				}
+			}
+			if complete && !matches!(v, Verdict::Intact | Verdict::Wrong(_)) {
+				ctx.violation(&format!("{fmtname}: complete rewrite over an existing file does not open intact"), &format!("{fmtname} [{}] over {pname}: {v:?}", j.name), json!({"format": fmtname, "compression": j.comp, "tiles": j.tiles.iter().map(|(k, v)| json!([k.0, k.1, k.2, codec_hex(v)])).collect::<Vec<_>>(), "ops_complete": k, "over": pi}));
+			}
+		}
+		ctx.extra_add("rewrite_images_identical_to_the_zero_filled_model", same_as_model);
+	}
+	let _ = std::fs::remove_dir_all(&dir);
 }
 
 fn codec_hex(v: &[u8]) -> String {
@@ -392,8 +499,16 @@ pub fn replay(ctx: Arc<Ctx>, case: &Value) {
 	let rt = tokio::runtime::Builder::new_current_thread().build().unwrap();
 	let log = record(&rt, fmt, &tiles, comp).expect("writer");
 	let k = case["ops_complete"].as_u64().unwrap() as usize;
-	let cut = case["cut"].as_u64().unwrap() as usize;
+	let cut = case["cut"].as_u64().unwrap_or(0) as usize;
 	let probes = tilesets::probe_coords(&tiles);
+	if case.get("over").is_some() {
+		// rewrite over an existing file: re-run the whole (short) prefix enumeration of this history, keep the recorded case
+		let j = Job { fmt, comp, name: "replay".into(), tiles: tiles.clone() };
+		for _ in 0..2 {
+			rewrite_over_existing(&ctx, &rt, &j, 0, &log, &probes);
+		}
+		return;
+	}
 	let a = judge(&rt, fmt, materialize(&log, k, cut), &tiles, &probes);
 	let b = judge(&rt, fmt, materialize(&log, k, cut), &tiles, &probes);
 	if a != b {
